@@ -1769,11 +1769,11 @@ class _sum_minmax(_minmax):
     def value(self):
  
         if self._ismax:
-            return matrix(sum(_vecmax(*[f.value() for f in 
-                self._flist])), tc='d')
+            val = _vecmax(*[f.value() for f in self._flist])
         else:
-            return matrix(sum(_vecmin(*[f.value() for f in 
-                self._flist])), tc='d')
+            val = _vecmin(*[f.value() for f in self._flist])
+        if val is None: return None
+        return matrix(sum(val), tc='d')
 
 
     def __pos__(self):
